@@ -79,8 +79,19 @@ func vfAnnounceHistory(t *testing.T, rng *rand.Rand, nops int) (lit string, rec 
 		}
 		// tainted[{a, b}]: a's OUTBOUND pubsub stream to b was reset while the connection stayed up (a then forgets b's
 		// subscriptions: the recorded finding); what b believes about a is not excused
-		tainted := map[[2]int]bool{}
+		// level 2: it was reset for at least the fifth time (the respawn backoff of pubsub.go allows MaxBackoffAttempts = 4 per peer
+		// and ten minutes; after that a does not open a stream to b again, so b hears nothing from a any more: a second recorded
+		// finding, about what b believes about a)
+		tainted := map[[2]int]int{}
+		nresets := map[[2]int]int{}
 		untaint := func(a, b int) { delete(tainted, [2]int{a, b}); delete(tainted, [2]int{b, a}) }
+		taint := func(a, b int) {
+			nresets[[2]int{a, b}]++
+			tainted[[2]int{a, b}] = 1
+			if nresets[[2]int{a, b}] > MaxBackoffAttempts {
+				tainted[[2]int{a, b}] = 2
+			}
+		}
 		connected := func(a, b int) bool { return hosts[a].Network().Connectedness(hosts[b].ID()) == network.Connected }
 		topicOf := func(n *vfANode, tp int) *Topic {
 			if x, ok := n.topics[tp]; ok {
@@ -151,7 +162,7 @@ func vfAnnounceHistory(t *testing.T, rng *rand.Rand, nops int) (lit string, rec 
 			for a := 0; a < nn; a++ {
 				for b := a + 1; b < nn; b++ {
 					if connected(a, b) {
-						ll = append(ll, fmt.Sprintf("(%d, %d, %v)", a, b, tainted[[2]int{a, b}]), fmt.Sprintf("(%d, %d, %v)", b, a, tainted[[2]int{b, a}]))
+						ll = append(ll, fmt.Sprintf("(%d, %d, %d)", a, b, tainted[[2]int{a, b}]), fmt.Sprintf("(%d, %d, %d)", b, a, tainted[[2]int{b, a}]))
 					}
 				}
 			}
@@ -164,6 +175,28 @@ func vfAnnounceHistory(t *testing.T, rng *rand.Rand, nops int) (lit string, rec 
 			tp := rng.Intn(vfATopics)
 			if burst == 0 && rng.Intn(3) == 0 {
 				burst = 2 + rng.Intn(4)
+			}
+			if burst == 0 && rng.Intn(12) == 0 {
+				// a volley of announcements and withdrawals back to back (relay references taken and given back on every topic the
+				// node has no other interest in): the tiny queues refuse some of them, withdrawals included, and they are retried
+				var ops []string
+				var rcs []RelayCancelFunc
+				for tq := 0; tq < vfATopics; tq++ {
+					if n.interest(tq) {
+						continue
+					}
+					if rc, err := topicOf(n, tq).Relay(); err == nil {
+						rcs = append(rcs, rc)
+						ops = append(ops, fmt.Sprintf("relay %d t%d", a, tq))
+					}
+				}
+				for _, rc := range rcs {
+					rc()
+				}
+				if len(ops) > 0 {
+					observe(strings.Join(ops, " ; ") + " ; all given back at once")
+				}
+				continue
 			}
 			if burst == 0 && rng.Intn(12) == 0 {
 				// announcements queued while a peer's queue has no writer: a's outbound stream to b is reset twice (the second
@@ -191,10 +224,16 @@ func vfAnnounceHistory(t *testing.T, rng *rand.Rand, nops int) (lit string, rec 
 				if q0 == nil || !resetOut() {
 					continue
 				}
-				tainted[[2]int{a, b}] = true
+				taint(a, b)
 				nReset++
 				time.Sleep(200 * time.Millisecond)
 				q1 := queueOf()
+				if q1 != nil && q1 != q0 {
+					nresets[[2]int{a, b}]++ // the second reset, below
+					if nresets[[2]int{a, b}] > MaxBackoffAttempts {
+						tainted[[2]int{a, b}] = 2
+					}
+				}
 				if q1 == nil || q1 == q0 || !resetOut() {
 					observe(fmt.Sprintf("reset-outbound-pubsub-stream %d->%d", a, b))
 					continue
@@ -329,7 +368,7 @@ func vfAnnounceHistory(t *testing.T, rng *rand.Rand, nops int) (lit string, rec 
 				if !done {
 					continue
 				}
-				tainted[[2]int{a, b}] = true
+				taint(a, b)
 				nReset++
 				observe(fmt.Sprintf("reset-outbound-pubsub-stream %d->%d", a, b))
 			}
